@@ -175,3 +175,4 @@ pub fn open_handles_on(slot: usize) -> usize {
     }
     n
 }
+
